@@ -219,7 +219,7 @@ fn scatter_assign(t: &mut Tape, ctx: &mut Ctx, maxlen: usize) -> CheckResult {
     ensure!(ctx, un(&m) == want, "scatter-assign-constant", "scatter_assign_constant = {:?} want {:?}", un(&m), want);
     // scatter_sub_assign on naturals: self[ixs[i]] -= rhs[i] for every i, in order
     ctx.sub("scatter-sub-assign");
-    let base: Vec<usize> = (0..n).map(|_| 20 + t.choice(10)).collect();
+    let base: Vec<usize> = (0..n).map(|_| 1000 + t.choice(10)).collect(); // large enough: no underflow for any number of repeats
     let rhs: Vec<usize> = ixs.iter().map(|_| t.choice(3)).collect();
     let mut m: A<usize> = mk(base.clone());
     m.scatter_sub_assign(&mk(ixs.clone()), &mk(rhs.clone()));
